@@ -13,7 +13,7 @@ pub open spec fn with_lp(p: PairInfoRaw, lp: Seq<u8>, q: PairInfoRaw) -> bool {
     && q.requirements == p.requirements && q.commission_rate == p.commission_rate
 }
 //%fn contracts/halo-pair/src/contract.rs | - | reply
-//%%rewrite #1 /\|mut meta\| -> StdResult<_> \{/ => |meta0: PairInfoRaw| -> (o: StdResult<PairInfoRaw>) ensures /*[C16,C14 reply.closure-sets-lp-only]*/ o is Ok ==> with_lp(meta0, canon_of(liquidity_token@), o->Ok_0) { let mut meta = meta0; ## closure parameter `mut meta` and the inferred return type are spelled out; the closure is annotated with what it must do and verified against its real body
+//%%rewrite #1 /\|mut (\w+)\| -> StdResult<_> \{(?=(?s:.*?)addr_canonicalize\(&(\w+)\))/ => |meta0: PairInfoRaw| -> (o: StdResult<PairInfoRaw>) ensures /*[C16,C14 reply.closure-sets-lp-only]*/ o is Ok ==> with_lp(meta0, canon_of(\2@), o->Ok_0) { let mut \1 = meta0; ## closure parameter `mut meta` and the inferred return type are spelled out; the closure is annotated with what it must do and verified against its real body
 //%%sig
     ensures
         /*[C16,C14 reply.records-lp-token]*/ r is Ok ==> old(deps.storage).pair_info is Some && final(deps.storage).pair_info is Some
